@@ -1,9 +1,13 @@
 (* StreamTruncated.v — C13: a stream that ends in the middle of a character.
    Text = done ++ [c]; the byte stream is the BOM (optional) followed by the first L bytes of the
-   text's encoding, with L strictly inside the bytes of the last character c.  For a target width
-   other than the source width: under Skip the output is exactly the complete prefix followed by the
-   mark and the reader then reports EndFile; under ThrowError the last result is DecodeError and the
-   output is exactly the complete prefix.  No hang, no silent loss. *)
+   text's encoding, with L strictly inside the bytes of the last character c.  For every pair of source
+   and target widths except UTF-8 into char (raw append, known finding F39): under Skip the output is
+   exactly the complete prefix followed by the mark and the reader then reports EndFile; under ThrowError
+   the last result is DecodeError and the output is exactly the complete prefix.  No hang, no silent loss.
+   Same widths (UTF-16 into char16_t, UTF-32 into char32_t) go through the copy paths of Utf16::Decode /
+   Utf32::Decode: a stream cut inside a code unit leaves a partial unit in the window at end of file, a
+   stream cut between the halves of a surrogate pair leaves the first half held back by the copy
+   (UnexpectedEnd); both are answered by the mark / DecodeError. *)
 From BS Require Import Base UtfSpec UtfModel UtfLemmas UtfProofs UtfOrder
   StreamIStream StreamSpec StreamModel StreamLemmas StreamUnits StreamDetProofs StreamEsrProofs StreamLossless.
 From Coq Require Import ZifyBool ZifyN ZifyNat.
@@ -49,6 +53,82 @@ Proof.
   exists s1. split; [reflexivity | exact Ty1].
 Qed.
 
+(* ---------- the copy paths (16 -> 16, 32 -> 32) at the cut ---------- *)
+Lemma rev_head_skipn {A} (X : list A) m x r : rev X = x :: r -> skipn m X <> [] ->
+  exists r', rev (skipn m X) = x :: r'.
+Proof.
+  intros HX Hne. rewrite <- (firstn_skipn m X), rev_app_distr in HX.
+  destruct (rev (skipn m X)) as [|y r'] eqn:E.
+  - exfalso. apply Hne. apply (f_equal (@rev A)) in E. rewrite rev_involutive in E. exact E.
+  - cbn [app] in HX. injection HX as -> _. eexists. reflexivity.
+Qed.
+
+(* same source and target width (16 or 32 bit), text = done ++ [c]: what the copy path does with a window of
+   q units starting at unit m when the window ends at or one unit after the last complete character *)
+Lemma same_width_step w tgt pol mark done c m q out :
+  w = tgt -> w <> W8 -> Forall scalar (done ++ [c]) ->
+  let U' := encs w (done ++ [c]) in
+  let D := length (encs w done) in
+  m <= D -> m + q < length U' ->
+  let r := core_decode w tgt pol mark (slice U' m q) out in
+  (r_code r = UnexpectedEnd -> S (r_pos r) = q) /\
+  (m + q = S D -> r_code r = UnexpectedEnd) /\
+  (m + q = D -> r_code r = Success) /\
+  m + q <= S D.
+Proof.
+  intros <- Hw Hs U' D Hm Hq r.
+  assert (EU : U' = encs w done ++ enc w c).
+  { unfold U'. rewrite encs_app. cbn [encs flat_map]. rewrite app_nil_r. reflexivity. }
+  assert (Hc : scalar c).
+  { apply Forall_app in Hs. destruct Hs as [_ Hs]. inversion Hs; assumption. }
+  assert (Hsd : Forall scalar done) by (apply Forall_app in Hs; apply Hs).
+  assert (LU : length U' = D + length (enc w c)) by (rewrite EU, app_length; reflexivity).
+  assert (Lsl : length (slice U' m q) = q) by (rewrite slice_length; lia).
+  destruct w; [congruence| |].
+  - (* W16 *)
+    assert (Le : length (enc W16 c) <= 2).
+    { cbn [enc]. unfold enc16. destruct (c <? 0x10000)%N; cbn; lia. }
+    subst r. unfold core_decode. rewrite copy16_spec.
+    split; [|split; [|split]].
+    + destruct (rev (slice U' m q)) as [|lastu rl] eqn:Er; [discriminate|].
+      destruct (holds_back lastu); cbn [r_code r_pos]; [|discriminate]. intros _. rewrite Lsl.
+      apply (f_equal (@length N)) in Er. rewrite rev_length, Lsl in Er. cbn in Er. lia.
+    + intros HSD.
+      (* the window ends with the first half of the cut pair *)
+      assert (L2 : length (enc W16 c) = 2) by lia.
+      cbn [enc] in L2, EU. unfold enc16 in L2, EU. destruct (c <? 0x10000)%N eqn:Elt; [cbn in L2; lia|].
+      set (hi := (0xD800 + (c - 0x10000) / 1024)%N) in *. set (lo := (0xDC00 + (c - 0x10000) mod 1024)%N) in *.
+      assert (Esl : slice U' m q = skipn m (encs W16 done) ++ [hi]).
+      { unfold slice. rewrite EU. rewrite skipn_app. replace (m - length (encs W16 done)) with 0 by (fold D; lia).
+        cbn [skipn]. rewrite firstn_app. rewrite skipn_length. fold D.
+        replace (q - (D - m)) with 1 by lia. cbn [firstn].
+        rewrite firstn_all2 by (rewrite skipn_length; fold D; lia). reflexivity. }
+      rewrite Esl, rev_app_distr. cbn [rev app].
+      assert (Hh : holds_back hi = true).
+      { unfold holds_back, hi. apply scalar_lt in Hc. lia. }
+      rewrite Hh. reflexivity.
+    + intros HD.
+      assert (Esl : slice U' m q = skipn m (encs W16 done)).
+      { unfold slice. rewrite EU. rewrite skipn_app. replace (m - length (encs W16 done)) with 0 by (fold D; lia).
+        cbn [skipn]. rewrite firstn_app. rewrite skipn_length. fold D.
+        replace (q - (D - m)) with 0 by lia. cbn [firstn]. rewrite app_nil_r.
+        apply firstn_all2. rewrite skipn_length. fold D. lia. }
+      rewrite Esl.
+      destruct (rev (skipn m (encs W16 done))) as [|lastu rl] eqn:Er; [reflexivity|].
+      pose proof (encs16_last_not_high done Hsd) as HL.
+      destruct (rev (encs W16 done)) as [|l0 rl0] eqn:Er0.
+      { exfalso. apply (f_equal (@rev N)) in Er0. rewrite rev_involutive in Er0. cbn in Er0.
+        rewrite Er0 in Er. rewrite skipn_nil in Er. discriminate. }
+      destruct (rev_head_skipn (encs W16 done) m l0 rl0 Er0) as [r' Er'].
+      { intros E0. rewrite E0 in Er. discriminate. }
+      rewrite Er in Er'. injection Er' as -> _. rewrite HL. reflexivity.
+    + lia.
+  - (* W32 *)
+    assert (Le : length (enc W32 c) = 1) by reflexivity.
+    subst r. unfold core_decode. cbn [r_code r_pos].
+    split; [discriminate|]. split; [intros; lia|]. split; [reflexivity | lia].
+Qed.
+
 Section TRUNC.
   Variable K : nat.
   Hypothesis HK4 : K mod 4 = 0.
@@ -73,7 +153,7 @@ Section TRUNC.
   Let data := (if b then bom e else []) ++ firstn L B'.
 
   Hypothesis HL : u * D < L < u * length U'.
-  Hypothesis Hx : width_eqb w tgt = false.
+  Hypothesis Hraw : ~ (w = W8 /\ tgt = W8).        (* not the raw-append path UTF-8 -> char *)
 
   Lemma HdataT : bytes data.
   Proof.
@@ -201,7 +281,7 @@ Section TRUNC.
       destruct (utftype_eqb e Utf8 && width_eqb tgt W8) eqn:Ed; [|reflexivity].
       exfalso. apply andb_true_iff in Ed. destruct Ed as [Ed1 Ed2].
       apply utftype_eqb_eq in Ed1. apply width_eqb_eq in Ed2.
-      unfold w in Hx. rewrite Ed1, Ed2 in Hx. discriminate. }
+      apply Hraw. split; [unfold w; rewrite Ed1; reflexivity | exact Ed2]. }
     rewrite Hdisp. clear Hdisp.
     unfold esr_decode_chunk. fold w u en. fold n. rewrite St1, Nat.sub_0_r, Nat.add_0_l.
     set (a := n - n mod u).
@@ -233,9 +313,24 @@ Section TRUNC.
     assert (Hw' : win s' = skipn p (win s1)).
     { unfold win. subst s'. cbn [e_buf e_start e_end]. fold n. rewrite St1, Nat.sub_0_r. unfold slice. cbn [skipn].
       replace n with (p + (n - p)) at 2 by lia. rewrite skipn_firstn_comm'. reflexivity. }
+    (* same widths: the copy path, see same_width_step *)
+    assert (SW : width_eqb w tgt = true ->
+              (r_code r = UnexpectedEnd -> S (r_pos r) = q) /\ (m + q = S D -> r_code r = UnexpectedEnd) /\
+              (m + q = D -> r_code r = Success) /\ m + q <= S D).
+    { intros Hxb. apply width_eqb_eq in Hxb.
+      assert (Hw8 : w <> W8) by (intros E8; apply Hraw; split; [exact E8 | rewrite <- Hxb; exact E8]).
+      assert (Hlt : m + q < length U') by nia.
+      exact (same_width_step w tgt pol mark done c m q out Hxb Hw8 Hs Hm Hlt). }
     (* what has been consumed ends at a character boundary before the cut character *)
     assert (HCD : m + r_pos r <= D /\ (m + r_pos r = D -> r_out r = encs tgt done)).
-    { pose proof D3 as D3'. unfold Consumed in D3'. rewrite Hx in D3'. destruct D3' as [j [Hj [Hmj Hout]]].
+    { destruct (width_eqb w tgt) eqn:Hx.
+      { destruct (SW eq_refl) as [S1 [S2 [S3 S4]]].
+        pose proof D3 as D3'. unfold Consumed in D3'. rewrite Hx in D3'. destruct D3' as [Hle Hout].
+        apply width_eqb_eq in Hx. split.
+        - destruct (Nat.le_gt_cases (m + q) D) as [Hle'|Hgt]; [lia|].
+          assert (HSD : m + q = S D) by lia. specialize (S1 (S2 HSD)). lia.
+        - intros HD. rewrite Hout, HD. fold U'. rewrite U'_split. rewrite <- Hx. unfold D. apply firstn_app_exact. }
+      pose proof D3 as D3'. unfold Consumed in D3'. rewrite Hx in D3'. destruct D3' as [j [Hj [Hmj Hout]]].
       assert (Hlt : length (encs w (firstn j text')) < length U') by (rewrite <- Hmj; nia).
       destruct (boundary_le_D j Hj Hlt) as [B1 [B2 B3]]. rewrite Hmj. split; [exact B2|].
       intros HD. rewrite Hout, (B3 HD). reflexivity. }
@@ -251,8 +346,11 @@ Section TRUNC.
       assert (Hout : m + r_pos r = D /\ (r_code r = Success -> p < n)).
       { destruct D1 as [D1|D1].
         - specialize (D4 D1). split; [lia|]. intros _. nia.
-        - destruct (D6 D1 Hx) as [j0 [J1 [J2 [J3 J4]]]].
-          split; [|intros H; congruence].
+        - split; [|intros H; congruence].
+          destruct (width_eqb w tgt) eqn:Hx.
+          { destruct (SW eq_refl) as [S1 [S2 [S3 S4]]]. specialize (S1 D1).
+            destruct (Nat.eq_dec (m + q) D) as [HqD|HqD]; [specialize (S3 HqD); congruence | lia]. }
+          destruct (D6 D1 eq_refl) as [j0 [J1 [J2 [J3 J4]]]].
           (* the character left behind is the cut one *)
           assert (Hlen : length text' = S (length done)) by (unfold text'; rewrite app_length; cbn; lia).
           destruct (Nat.eq_dec j0 (length done)) as [->|Hne0].
